@@ -32,7 +32,7 @@ def _case(model, inputs, phase, fabric, how):
     }
 
 
-def t_kernel(sess, phase, fabric):
+def t_kernel(sess, phase, fabric, glue_only=False):
     sess.bounds["kernel"] = "one grain, A = R(q) for all unit quaternions q, L any real 3x3, p in [1,2], n in [2,5], lambda* in [0,10]; all feasible paths of the real kernel per fabric"
     sess.assume_env("x ** y with non-integer y and np.exp are uninterpreted functions constrained by: pow >= 0, pow = 0 iff base = 0 (y > 0), exp > 0 (Ackermannised)")
     sess.outside_claim("float rounding / fastmath; n_grains > 4 (the per-grain loop body is uniform in the grain index)")
@@ -75,7 +75,7 @@ def t_kernel(sess, phase, fabric):
                 })
             continue
         # definedness obligations (division by zero, 0**negative, sqrt/arccos domain)
-        for ob in p.obligations:
+        for ob in ([] if glue_only else p.obligations):  # glue_only: C01 re-proves only the contract its kernel stand-in assumes
             key = (ob.site, ob.cond.get_id(), tuple(c.get_id() for c in ob.pc))
             if key in seen:
                 continue
